@@ -297,7 +297,7 @@ CONC_ASSUMPTIONS = COMMON_ASSUMPTIONS + [
 PROPS["C03"] = {
     "level": "exploration",
     "technique": "generated concurrent programs (rapid) for 2-4 clients over a tiny shared namespace, executed with real goroutines (direct and over the RPC transport) with seeded yield injection at lock and commit points; linearizability decided by porcupine against a compact sequential model, with a final whole-state observation appended to every history",
-    "level_text": "Programs of 3-8 operations per client over three shared directories with three file names and two directory names each, and two shared regular files: create/remove races on the same names, renames over existing targets within and across directories (files), directory renames within a parent, concurrent write/truncate/read/getattr of one file (incl. truncations large enough for the background shrinker), LOOKUP and READDIR during updates; in half of the cases the inode numbers are arranged so that children are numbered below their directories (retry paths). Every reply (status, handle, file id, type, size incl. post-operation attributes, data, listing) and a final observation of every name and file must be explained by one sequential order that respects real-time order. READDIRPLUS of the root (the one directory all of whose entries follow it in the lock order) is part of the programs: its names, the handles of the contended names and the size it reports for one shared file are judged by the model. The enumeration also starts from a state in which the lowest free inode number belongs to a removed 600-block file whose freeing was interrupted (the next CREATE/MKDIR has to finish it, dropping its directory lock meanwhile), with the first twelve lock/commit points as pause points.",
+    "level_text": "Programs of 3-8 operations per client over three shared directories with three file names and two directory names each, and two shared regular files: create/remove races on the same names, renames over existing targets within and across directories (files), directory renames within a parent, concurrent write/truncate/read/getattr of one file (incl. truncations large enough for the background shrinker), LOOKUP and READDIR during updates; in half of the cases the inode numbers are arranged so that children are numbered below their directories (retry paths). Every reply (status, handle, file id, type, size incl. post-operation attributes, data, listing) and a final observation of every name and file must be explained by one sequential order that respects real-time order. READDIRPLUS of the root (the one directory all of whose entries follow it in the lock order) is part of the programs: its names, the handles of the contended names and the size it reports for one shared file are judged by the model. The enumeration also starts from a state in which the lowest free inode number belongs to a removed 600-block file whose freeing was interrupted (the next CREATE/MKDIR has to finish it, dropping its directory lock meanwhile), with the first twelve lock/commit points as pause points. Further families of the enumeration: a file moved to another directory while the other client makes requests in both directories (among them creations refused after they started); a refused RENAME held at its abort point with a second client waiting for the directory and a third pushing its inode out of the cache; and READDIRPLUS of a directory against SETATTRs that set size and mtime of one of its entries together, the held client stopped at its lock/commit/abort points or, on a cold cache, at each of its first ten accesses to the device (the model tracks a client-set mtime; only requests on the file itself run next to the listing, because a request that locks the directory would meet known finding KF1).",
     "level_note": "Schedules are sampled, not enumerated. porcupine time-outs (none expected at this size) are counted, not judged. Hangs and panics are reported by the C06 and C11 checks. Known finding KF4 (the attributes of two different files in one READDIRPLUS listing are not a snapshot) is probed deterministically at the start and printed as KNOWN-FINDING; by construction the model judges the size of one file per listing only, the other file's sizes are counted (readdirplus_sizes_of_a_second_file_not_judged_KF4).",
     "rule": ("unit = one concurrent history. Non-trivial: at least two operations of different clients overlap in time and touch a common name or file (measured from the recorded stamps). distinct = FNV hash of the history."),
     "assumptions": CONC_ASSUMPTIONS,
